@@ -427,7 +427,8 @@ func ruleReadLoopConnErrors(p *Prog, r *Out) {
 		}
 		if isWU {
 			for _, s := range cc.Body {
-				if ifs, ok := s.(*ast.IfStmt); ok && p.text(ifs.Cond) == "win == 0" && goaway(ifs.Body.List) {
+				// on the connection's window only: on a stream's it is that stream's error, which the stream loop answers
+				if ifs, ok := s.(*ast.IfStmt); ok && p.isConjunctionOf(ifs.Cond, "win==0", "fr.Stream()==0") && goaway(ifs.Body.List) {
 					zero = true
 				}
 			}
@@ -438,7 +439,7 @@ func ruleReadLoopConnErrors(p *Prog, r *Out) {
 		}
 		return true
 	})
-	r.check(zero, "connection WINDOW_UPDATE of 0 rejected", p.pos(rl.Pos()), "win == 0 -> GOAWAY(PROTOCOL_ERROR)", "a connection-level WINDOW_UPDATE with increment 0 is no longer a connection error (RFC 7540 s6.9)")
+	r.check(zero, "connection WINDOW_UPDATE of 0 rejected", p.pos(rl.Pos()), "win == 0 && fr.Stream() == 0 -> GOAWAY(PROTOCOL_ERROR)", "a connection-level WINDOW_UPDATE with increment 0 is no longer a connection error, or a stream-level one is one again (RFC 7540 s6.9: connection error on stream 0, stream error on a stream)")
 	r.check(def, "stream-0 frame of a stream type rejected", p.pos(rl.Pos()), "default -> GOAWAY(PROTOCOL_ERROR)", "a DATA/HEADERS/... frame with stream id 0 is no longer a connection error")
 }
 
